@@ -374,3 +374,69 @@ def run_d(run, P, units=('coap_pdu.c', 'coap_option.c')):
         run.stats['width_solver_steps'] += ctx.steps
     # expected count on the repaired tree is zero: the positive example lives in fixtures/C03_width_call.c
     run.stats['width_implicit_call_narrowings'] = n
+
+
+def run_e(run, P, units=None):
+    """R-WIDTH (e): a DIFFERENCE of 64-bit quantities, one of them a record field (a persistent counter: sequence number, tick), is not
+    silently converted to a narrower integer on its way into a variable that a relational comparison then judges.  `uint32_t shift =
+    ctx->last_seq - incoming_seq - 1; if (shift > window)` decides on the distance modulo 2^32: a sequence number 2^32 + k behind the
+    newest one looks k behind, lands inside the replay window and is accepted (or marks the wrong bit).  Explicit casts are the
+    programmer's statement and are left to clauses (a)/(b); a narrowing that sits under a dominating comparison of the same difference
+    is accepted."""
+    from core.prog import dominators
+    run.rule('R-WIDTH')
+    n = nd = 0
+    for f in sorted(P.lib_funcs(), key=lambda f: f['name']):
+        if units and f['unit'] not in units:
+            continue
+        cands = []
+        for b, ev in P.events(f):
+            t = ev['e']
+            pairs = []
+            if t.get('k') == 'decl':
+                pairs = [(d['n'], 'v%s' % d['id'], d['init']) for d in t['d'] if d.get('init')]
+            elif t.get('k') == 'asg' and t.get('op') == '=' and ev.get('top', True) and ap(t['l']):
+                pairs = [(short(t['l']), ap(t['l']), t['r'])]
+            for nm, key_, init in pairs:
+                if not (isinstance(init, dict) and init.get('k') == 'cast'):
+                    continue
+                inner = init.get('e')
+                while isinstance(inner, dict) and inner.get('k') == 'cast' and inner.get('ck') in ('LValueToRValue', 'NoOp'):
+                    inner = inner.get('e')
+                if not (isinstance(inner, dict) and inner.get('k') == 'bin' and inner.get('op') == '-' and inner.get('w') == 64):
+                    continue
+                if not any(isinstance(x, dict) and x.get('k') == 'mem' and x.get('w') == 64 for x in walk(inner)):
+                    continue
+                nd += 1
+                if init.get('ck') == 'IntegralCast' and not init.get('ex') and init.get('w', 64) < 64:
+                    cands.append((b, ev, nm, key_, init, inner))
+        if not cands:
+            continue
+        dom = dominators(f)
+        for b, ev, nm, key_, init, inner in cands:
+            judged = None
+            for bb in f['blocks']:
+                c = (bb.get('term') or {}).get('cond')
+                if c is None:
+                    continue
+                for x in walk(c):
+                    if isinstance(x, dict) and x.get('k') == 'bin' and x.get('op') in ('<', '>', '<=', '>=') and \
+                       any(isinstance(y, dict) and ap(y) == key_ for y in walk(x)):
+                        judged = judged or short(x)
+            if not judged:
+                continue
+            guarded = False
+            for bb in f['blocks']:
+                c = (bb.get('term') or {}).get('cond')
+                if c is not None and bb['id'] in dom.get(b['id'], ()) and bb['id'] != b['id'] and short(inner) in short(c):
+                    guarded = True
+            n += 1
+            run.instance('R-WIDTH', '%s: %s = %s (64 -> %d bits, implicit), judged by %s' % (f['name'], nm, short(inner)[:50], init['w'], judged[:40]))
+            run.oblige('R-WIDTH', guarded, '%s:%s:difference-keeps-its-width' % (f['name'], nm))
+            if not guarded:
+                run.violation('R-WIDTH', f['name'], ev['loc'], 'implicit-narrowing-of-64bit-difference:%s' % nm,
+                              '%s receives %s, a 64-bit difference of a persistent counter, through an implicit conversion to %d bits and is then judged by `%s`: a distance of '
+                              '2^%d + k passes for k' % (nm, short(inner)[:60], init['w'], judged[:50], init['w']), [])
+    run.stats['width_64bit_differences_stored'] = nd
+    run.stats['width_64bit_differences_narrowed'] = n
+    run.require(nd >= 1 or run.fixture_mode or run.cfg != 'base', 'R-WIDTH(e): no stored difference of a 64-bit record field found any more (expected oscore_validate_sender_seq: shift)')
